@@ -51,7 +51,7 @@ func (r *c23Run) Setup(s *sim.Sim) {
 	for i := 0; i < n; i++ {
 		var c c23Client
 		if p.Intn(3) != 0 {
-			for _, opt := range []string{"recv", "send", "maxmsg", "maxchunks", "lifetime", "sessiontimeout", "appname"} {
+			for _, opt := range []string{"recv", "send", "maxmsg", "maxchunks", "lifetime", "sessiontimeout", "appname", "locale1", "locale2", "producturi", "appuri", "sessionname"} {
 				if p.Intn(3) == 0 {
 					c.Set = append(c.Set, opt)
 				}
@@ -112,6 +112,10 @@ func (r *c23Run) Main(s *sim.Sim) {
 		lifetime uint32
 		timeout  float64
 		app      string
+		product  string
+		appURI   string
+		sessName string
+		locales  []string
 	}
 	obs := map[*rawSrvConn]*seen{}
 	srv.OnOpen = func(c *rawSrvConn, reqID uint32, req *ua.OpenSecureChannelRequest) bool {
@@ -132,6 +136,16 @@ func (r *c23Run) Main(s *sim.Sim) {
 			if cs.ClientDescription != nil && cs.ClientDescription.ApplicationName != nil {
 				obs[c].app = cs.ClientDescription.ApplicationName.Text
 			}
+			if cs.ClientDescription != nil {
+				obs[c].product, obs[c].appURI = cs.ClientDescription.ProductURI, cs.ClientDescription.ApplicationURI
+			}
+			obs[c].sessName = cs.SessionName
+		}
+		if as, ok := req.(*ua.ActivateSessionRequest); ok {
+			if obs[c] == nil {
+				obs[c] = &seen{}
+			}
+			obs[c].locales = append([]string(nil), as.LocaleIDs...)
 		}
 		inner(c, reqID, req)
 	}
@@ -157,6 +171,18 @@ func (r *c23Run) Main(s *sim.Sim) {
 				opts = append(opts, opcua.SessionTimeout(time.Duration(cc.SessionTimeoutMs)*time.Millisecond))
 			case "appname":
 				opts = append(opts, opcua.ApplicationName(cc.AppName))
+			case "locale1":
+				opts = append(opts, opcua.Locales("de-"+cc.AppName))
+			case "locale2":
+				if !has(cc.Set, "locale1") {
+					opts = append(opts, opcua.Locales("fr-"+cc.AppName, "it-"+cc.AppName))
+				}
+			case "producturi":
+				opts = append(opts, opcua.ProductURI("urn:product:"+cc.AppName))
+			case "appuri":
+				opts = append(opts, opcua.ApplicationURI("urn:app:"+cc.AppName))
+			case "sessionname":
+				opts = append(opts, opcua.SessionName("session-"+cc.AppName))
 			}
 		}
 		switch cc.Dialer {
@@ -230,6 +256,33 @@ func (r *c23Run) Main(s *sim.Sim) {
 		if obs[rc].timeout != wantTO {
 			s.Fail("C23", "foreign-option", "SessionTimeout", "client %d requested session timeout %v, expected %v", i, obs[rc].timeout, wantTO)
 			return
+		}
+		wantLoc := fmt.Sprint(defSessionCfg.LocaleIDs)
+		if has(cc.Set, "locale1") {
+			wantLoc = fmt.Sprint([]string{"de-" + cc.AppName})
+		} else if has(cc.Set, "locale2") {
+			wantLoc = fmt.Sprint([]string{"fr-" + cc.AppName, "it-" + cc.AppName})
+		}
+		if got := fmt.Sprint(obs[rc].locales); got != wantLoc {
+			s.Fail("C23", "foreign-option", "Locales", "client %d (options %v) activated its session with locales %s, expected %s; constructions: %+v", i, cc.Set, got, wantLoc, r.Clients)
+			return
+		}
+		for _, k := range []struct{ name, opt, got, own, def string }{
+			{"ProductURI", "producturi", obs[rc].product, "urn:product:" + cc.AppName, defSessionCfg.ClientDescription.ProductURI},
+			{"ApplicationURI", "appuri", obs[rc].appURI, "urn:app:" + cc.AppName, defSessionCfg.ClientDescription.ApplicationURI},
+			{"SessionName", "sessionname", obs[rc].sessName, "session-" + cc.AppName, ""},
+		} {
+			want := k.def
+			if has(cc.Set, k.opt) {
+				want = k.own
+			}
+			if k.opt == "sessionname" && !has(cc.Set, k.opt) {
+				continue // the default session name is generated per client
+			}
+			if k.got != want {
+				s.Fail("C23", "foreign-option", k.name, "client %d (options %v) sent %s=%q, expected %q", i, cc.Set, k.name, k.got, want)
+				return
+			}
 		}
 		if has(cc.Set, "appname") != (obs[rc].app == cc.AppName) {
 			s.Fail("C23", "foreign-option", "ApplicationName", "client %d (options %v) sent application name %q", i, cc.Set, obs[rc].app)
